@@ -636,6 +636,7 @@ class Multi(Miniscript):
     TYPE = "B"
     PROPS = "ndu"
     _expected_taproot = False
+    MAX_KEYS = 20  # CHECKMULTISIG takes at most 20 keys
 
     def __init__(self, *args, **kwargs):
         super().__init__(*args, **kwargs)
@@ -660,6 +661,11 @@ class Multi(Miniscript):
             raise MiniscriptError(
                 "multi: 1 <= k <= %d, got %d" % ((len(self.args) - 1), self.args[0].num)
             )
+        if len(self.args) - 1 > self.MAX_KEYS:
+            raise MiniscriptError(
+                "%s: at most %d keys allowed, got %d"
+                % (self.NAME, self.MAX_KEYS, len(self.args) - 1)
+            )
 
 
 class Sortedmulti(Multi):
@@ -679,6 +685,7 @@ class MultiA(Multi):
     # <key1> CHECKSIG <key2> CHECKSIGADD ... <keyN> CHECKSIGNADD <k> NUMEQUAL
     NAME = "multi_a"
     _expected_taproot = True
+    MAX_KEYS = 999  # CHECKSIGADD chain: at most 999 keys
 
     def inner_compile(self):
         return (
